@@ -11,11 +11,14 @@ import (
 	"os"
 	"runtime"
 	"strings"
+	"sync"
 	"sync/atomic"
 	"time"
 )
 
 var cache = map[string]int{}
+
+var memo sync.Map
 
 type counter struct{ n uint64 }
 
@@ -30,6 +33,7 @@ func Bad(w io.Writer, c *counter) {
 	go func() {}()          // goroutine
 	zw := gzip.NewWriter(w) // compressor header field set from a non-constant
 	zw.Header.ModTime = time.Now()
+	memo.Store("k", 1)                             // write to a package-level sync.Map
 	cache["k"] = 1                                 // unlocked write to a package-level map
 	_ = os.WriteFile("/tmp/x", nil, 0o600)         // file-system write
 	atomic.AddUint64(&c.n, 1)                      // atomic access ...
